@@ -1,10 +1,13 @@
 package props
 
 import (
+	"encoding/json"
 	"fmt"
 	"os"
 	"path/filepath"
+	"strings"
 	"sync"
+	"time"
 
 	badger "github.com/dgraph-io/badger/v4"
 
@@ -98,8 +101,9 @@ func checkSeq(c *core.Ctx, sig string, nums []seqNum, info map[string]any) {
 // C30 sequence numbers are unique and increasing (in-process part: concurrency, Release, restarts).
 func C30(c *core.Ctx) {
 	c.Rule("2-8 goroutines call Next on 1-4 Sequence objects for the same key (bandwidth 1-5) in 2-4 epochs separated by Release (or not) and close/re-open of the database; every " +
-		"number returned with a nil error is logged; oracle: globally unique across objects and epochs, strictly increasing per object as seen by each caller; crash epochs (kill -9 " +
-		"between hand-out and use) are added by the crash engine in the thorough tier; distinct = (objects, workers, bandwidth, release, epochs) configurations")
+		"number returned with a nil error is logged; oracle: globally unique across objects and epochs, strictly increasing per object as seen by each caller; crash epochs: a workload child (3 goroutines on Sequence objects with bandwidth 1-5, Release/re-lease, " +
+		"plus transaction clients so that flushes and compactions run) logs every number outside the database and is SIGKILLed at a random hook event, 2-3 times on the same directory, " +
+		"with a clean verifier session (7 numbers) after each kill; all numbers over all epochs must be pairwise different; distinct = (objects, workers, bandwidth, release, epochs) configurations")
 	work := c.WorkDir()
 	defer os.RemoveAll(work)
 	r := c.Rand("c30")
@@ -149,9 +153,87 @@ func C30(c *core.Ctx) {
 			c.Sample(info)
 		}
 	}
+	for i := 0; i < c.Pick(6, 40); i++ {
+		c30Crash(c, work, i)
+	}
 	if c.Counter("seq.numbers_checked") == 0 {
 		c.Inconclusive("no numbers handed out")
 	}
 	c.CheckRaces(nil, "", "")
 	c.Assume("numbers are compared as returned values; a Next that returned an error handed out nothing")
+}
+
+// c30Crash: sequence numbers across crashes (E2 engine, family "seq").
+func c30Crash(c *core.Ctx, work string, idx int) {
+	r := c.Rand(fmt.Sprintf("c30-crash-%d", idx))
+	cfg := crashConfig{name: []string{"base", "snappy", "syncwrites"}[idx%3], variant: []int{0, 1, 7}[idx%3], family: "seq", sync: idx%3 == 2, clients: 3, txns: 40}
+	s, specPath := newCrashSpec(c, work, cfg, idx, fmt.Sprintf("seqcrash%d", idx))
+	defer os.RemoveAll(filepath.Dir(specPath))
+	type origin struct {
+		epoch int
+		who   string
+	}
+	seen := map[uint64]origin{}
+	info := map[string]any{"config": cfg.name, "spec": s}
+	note := func(n uint64, o origin) {
+		c.Count("seq.crash_numbers_checked", 1)
+		c.Count("seq.numbers_checked", 1)
+		if p, dup := seen[n]; dup {
+			c.Violation("C30|crash|duplicate", fmt.Sprintf("number %d was handed out in epoch %d (%s) and again in epoch %d (%s) with a crash in between", n, p.epoch, p.who, o.epoch, o.who), info)
+			return
+		}
+		seen[n] = o
+	}
+	epochs := 2 + r.Intn(2)
+	for ep := 0; ep < epochs; ep++ {
+		s.SideLog = filepath.Join(filepath.Dir(specPath), fmt.Sprintf("side%d.log", ep))
+		s.Seed = r.Int63()
+		s.KillAt = int64(40 + r.Intn(1500))
+		writeSpec(s, specPath)
+		out, timedOut, _ := runChild(90*time.Second, nil, c.ID, "--child-crash", specPath)
+		if timedOut {
+			c.Inconclusive("sequence workload child timed out: " + tailStr(out, 200))
+			return
+		}
+		si := parseSideLog(s.SideLog)
+		if si.fatal != "" {
+			c.Violation("C30|crash|workload-open-error", si.fatal, info)
+			return
+		}
+		for _, n := range si.seqNums {
+			note(n.num, origin{ep, fmt.Sprintf("workload goroutine %d", n.client)})
+		}
+		if si.killed != "" {
+			c.Count("seq.crash_epochs_killed_mid_workload", 1)
+			c.Distinct("crash-epoch|" + cfg.name + "|" + si.killed)
+		}
+		// clean session after the crash
+		out, timedOut, _ = runChild(120*time.Second, nil, c.ID, "--child-verify", specPath)
+		if timedOut {
+			c.Inconclusive("verifier child timed out")
+			return
+		}
+		var d VerifyDump
+		found := false
+		for _, ln := range strings.Split(out, "\n") {
+			if strings.HasPrefix(ln, "DUMP ") && json.Unmarshal([]byte(ln[5:]), &d) == nil {
+				found = true
+			}
+		}
+		switch {
+		case !found:
+			c.Violation("C30|crash|open-died", "re-opening after the crash killed the process", map[string]any{"output": tailStr(out, 4000)})
+			return
+		case d.OpenErr != "":
+			c.Violation("C30|crash|open-error", d.OpenErr, info)
+			return
+		case d.SeqErr != "":
+			c.Violation("C30|crash|sequence-error-after-recovery", d.SeqErr, info)
+			return
+		}
+		for _, n := range d.SeqNext {
+			note(n, origin{ep, "session after the crash"})
+		}
+	}
+	c.Eval(1)
 }
